@@ -126,4 +126,11 @@ def scenarios():
     # used to be prepared but never sent because the transaction shut down first
     add("c10-unack-closure-receiver-cancel", cfg(mode="unack", closure=True, limit=2, file=[1, 2, 0]),
         [S, Dr(), RC("Cancel"), R, Ds(), T(2), RT, R, Ds(), T(2), RT], [])
+    # C18 (found by TLC, MC suspS-unack): resume() restarted the ACK timer although no EOF awaited an ACK:
+    # an unacknowledged sender waiting for closure retransmitted its EOF
+    add("c18-resume-rearms-ack-timer-unack", cfg(mode="unack", closure=True, limit=2, file=[1, 2, 0]),
+        [S, S, S, S, SC("Suspend"), SC("Resume"), T(2), ST, S], [])
+    # ... and an acknowledged sender retransmitted an EOF that had been acknowledged
+    add("c17-resume-rearms-ack-timer-acked", cfg(limit=2, file=[1, 2, 0]),
+        [S, S, S, S, Dr(), Dr(), Dr(), Dr(), R, Ds(), SC("Suspend"), SC("Resume"), T(2), ST, S], [])
     return out
